@@ -24,7 +24,8 @@ EXPLANATION = (
     'mis-weights); mode and reduction dispatches raise on unknown values (V2); '
     'the feature / label helpers forward each config field to the parameter of '
     'the same role (W1). Strict increase, end-point values and keypoint counts '
-    'depend on data values and quantile rounding and are NOT decided here.')
+    'depend on data values and quantile rounding and are NOT decided here.'
+    ' Also decided: clip polarity and values / weights lockstep (K1, K2), dispatch totality (V2), forwarding (W1), np.issubdtype and friends receive dtype expressions (V5t), the weighted quantile division is guarded (D3), numeric options are not truth-tested (N0).')
 ASSUMPTIONS = [
     'inspect.signature of the installed NumPy describes what the call accepts',
     'np.append / boolean-mask indexing / np.unique have documented semantics',
